@@ -85,8 +85,9 @@ def run(ctx):
         rng = np.random.RandomState(ctx.seed + 2)
         runs += ce.random_runs(rng, 20000, ["kcenters"])
         ctx.exhaustive = False
-    if ctx.tier == "quick" and len(runs) > 15000:      # deterministic, seed-rotated subsample
-        stride = -(-len(runs) // 15000)
+    cap = 15000 if ctx.tier == "quick" else 60000       # (thorough: five times the quick share; the full product of the
+    if len(runs) > cap:                                 # thorough scopes is hundreds of thousands of runs -- hours)
+        stride = -(-len(runs) // cap)
         ctx.notes["runs_enumerated"] = len(runs)
         runs = runs[ctx.seed % stride::stride]
         ctx.exhaustive = False
